@@ -1,6 +1,7 @@
 import BU.Py
 import BU.Gen.Codec
 import BU.Spec.CompactSize
+import BU.Proofs.PyLemmas
 /-!
 # C17 — CompactSize and satoshi conversions are exact
 
@@ -123,30 +124,84 @@ theorem encode_varint_rejects (i : Int) (h : i < 0 ∨ 2 ^ 64 ≤ i) :
 /-- `parse_compact_size` inverts the encoder on any continuation: value and bytes consumed -/
 theorem parse_compact_size_encode (n : Nat) (h : n < 2 ^ 64) (rest : Bytes) :
     Gen.parse_compact_size (compactSize n ++ rest) = .ok ((n : Int), ((compactSize n).length : Int)) := by
-  sorry
+  unfold Gen.parse_compact_size compactSize
+  by_cases h1 : n < 253
+  · have e : (UInt8.ofNat n).toNat = n := by simp [UInt8.toNat_ofNat']; omega
+    have a : (n:Int) < 253 := by omega
+    simp [h1, index_cons_zero, e, ok_bind, a, pure_eq_ok]
+  · by_cases h2 : n < 2 ^ 16
+    · have e := ofLE_leBytes 2 n (by omega)
+      simp [h1, h2, index_cons_zero, unpack1_H, unpackU, slice, e, ok_bind, map_ok]
+    · by_cases h3 : n < 2 ^ 32
+      · have e := ofLE_leBytes 4 n (by omega)
+        simp [h1, h2, h3, index_cons_zero, unpack1_I, unpackU, slice, e, ok_bind, map_ok]
+      · have e := ofLE_leBytes 8 n (by omega)
+        simp [h1, h2, h3, index_cons_zero, unpack1_Q, unpackU, slice, e, ok_bind, map_ok]
 
 /-- `parse_compact_size` agrees with the Spec decoder on *every* input (ok/err and value) -/
 theorem parse_compact_size_eq_spec (b : Bytes) :
     (match Gen.parse_compact_size b with
      | .ok (v, k) => some (v, k)
      | .error _ => none) = (decodeCompactSize b).map (fun p => ((p.1 : Int), (p.2 : Int))) := by
-  sorry
+  cases b with
+  | nil => simp [Gen.parse_compact_size, decodeCompactSize, index, error_bind]
+  | cons x rest =>
+    unfold Gen.parse_compact_size decodeCompactSize
+    have hx := x.toNat_lt
+    by_cases h1 : x.toNat < 253
+    · have a : (x.toNat : Int) < 253 := by omega
+      simp [index_cons_zero, ok_bind, h1, a, pure_eq_ok]
+    · by_cases h2 : x.toNat = 253
+      · by_cases hl : rest.length < 2
+        · have : ¬ (min 2 rest.length = 2) := by omega
+          simp [index_cons_zero, ok_bind, h2, hl, unpack1_H, unpackU, slice, this, map_error]
+        · have : (min 2 rest.length = 2) := by omega
+          simp [index_cons_zero, ok_bind, h2, hl, unpack1_H, unpackU, slice, this, map_ok]
+      · by_cases h3 : x.toNat = 254
+        · by_cases hl : rest.length < 4
+          · have : ¬ (min 4 rest.length = 4) := by omega
+            simp [index_cons_zero, ok_bind, h3, hl, unpack1_I, unpackU, slice, this, map_error]
+          · have : (min 4 rest.length = 4) := by omega
+            simp [index_cons_zero, ok_bind, h3, hl, unpack1_I, unpackU, slice, this, map_ok]
+        · have b4 : x.toNat = 255 := by omega
+          by_cases hl : rest.length < 8
+          · have : ¬ (min 8 rest.length = 8) := by omega
+            simp [index_cons_zero, ok_bind, b4, hl, unpack1_Q, unpackU, slice, this, map_error]
+          · have : (min 8 rest.length = 8) := by omega
+            simp [index_cons_zero, ok_bind, b4, hl, unpack1_Q, unpackU, slice, this, map_ok]
 
 /-- `vi_to_int` inverts the encoder on any continuation (it is handed at least the encoding) -/
 theorem vi_to_int_encode (n : Nat) (h : n < 2 ^ 64) (rest : Bytes) :
     Gen.vi_to_int (compactSize n ++ rest) = .ok ((n : Int), ((compactSize n).length : Int)) := by
-  sorry
+  unfold Gen.vi_to_int compactSize
+  by_cases h1 : n < 253
+  · have e : (UInt8.ofNat n).toNat = n := by simp [UInt8.toNat_ofNat']; omega
+    have a : (n:Int) < 253 := by omega
+    simp [h1, index_cons_zero, e, ok_bind, a, pure_eq_ok]
+  · by_cases h2 : n < 2 ^ 16
+    · have e := ofLE_leBytes 2 n (by omega)
+      simp [h1, h2, index_cons_zero, slice, e, ok_bind, pure_eq_ok, fromBytes, ofBE]
+    · by_cases h3 : n < 2 ^ 32
+      · have e := ofLE_leBytes 4 n (by omega)
+        simp [h1, h2, h3, index_cons_zero, slice, e, ok_bind, pure_eq_ok, fromBytes, ofBE]
+      · have e := ofLE_leBytes 8 n (by omega)
+        simp [h1, h2, h3, index_cons_zero, slice, e, ok_bind, pure_eq_ok, fromBytes, ofBE]
 
 /-- prefixing data with its CompactSize length -/
 theorem prepend_eq_spec (d : Bytes) (h : d.length < 2 ^ 64) :
     Gen.prepend_compact_size d = .ok (withLen d) := by
-  sorry
+  unfold Gen.prepend_compact_size withLen Py.len
+  rw [encode_varint_eq_spec d.length h]
+  rfl
 
 /-- … is consistent with the decoders: they return the data length and consume exactly the prefix -/
 theorem prepend_consistent (d : Bytes) (h : d.length < 2 ^ 64) :
     ∃ (p : Bytes) (k : Nat), Gen.prepend_compact_size d = .ok p ∧ Gen.parse_compact_size p = .ok ((d.length : Int), (k : Int))
       ∧ Gen.vi_to_int p = .ok ((d.length : Int), (k : Int)) ∧ p.drop k = d := by
-  sorry
+  refine ⟨withLen d, (compactSize d.length).length, prepend_eq_spec d h, ?_, ?_, ?_⟩
+  · exact parse_compact_size_encode d.length h d
+  · exact vi_to_int_encode d.length h d
+  · simp [withLen]
 
 /-! ## satoshi conversion (`to_satoshis`, hand model: `int(round(num * 10^8))`)
 
@@ -164,6 +219,9 @@ def toSatoshis (k : Int) (e : Nat) : Int := roundHalfEven (k * 100000000) (10 ^ 
 
 /-- amounts with at most eight decimals convert exactly: `k / 10^e` BTC is `k * 10^(8-e)` satoshis -/
 theorem to_satoshis_exact (k : Int) (e : Nat) (he : e ≤ 8) : toSatoshis k e = k * 10 ^ (8 - e) := by
-  sorry
+  have hc : e = 0 ∨ e = 1 ∨ e = 2 ∨ e = 3 ∨ e = 4 ∨ e = 5 ∨ e = 6 ∨ e = 7 ∨ e = 8 := by omega
+  unfold toSatoshis roundHalfEven
+  rcases hc with rfl | rfl | rfl | rfl | rfl | rfl | rfl | rfl | rfl <;>
+    (simp only [Nat.reducePow, Nat.reduceSub, Int.reducePow]; split <;> omega)
 
 end C17
